@@ -629,6 +629,9 @@ func (s *Stage) Recover() {
 // predecessor: the companion is replaced with the first part of the new
 // version, the held body only when the new version has been validated.
 func (s *Stage) isStaleWait(cmp *sts.Partial, base string) bool {
+	if cmp == nil {
+		return false
+	}
 	if _, err := os.Stat(base + waitExt); err != nil {
 		return false
 	}
@@ -647,6 +650,9 @@ func (s *Stage) isStaleWait(cmp *sts.Partial, base string) bool {
 // file left under its lock name in the target directory is the one the log
 // says was received.
 func (s *Stage) finishMoved(cmp *sts.Partial) {
+	if cmp == nil {
+		return
+	}
 	targetName := cmp.Name
 	if cmp.Renamed != "" {
 		targetName = cmp.Renamed
